@@ -5,7 +5,7 @@ from evalutil import *
 
 ID = "C12"
 LEVEL = "proof"
-MODULES = ["H3Proofs.Props.C12", "H3Proofs.Props.C04Gen", "H3Proofs.Props.C05Gen", "H3Proofs.Props.C01", "H3Proofs.Props.C01Lnz", "H3Proofs.Props.C01Rot", "H3Proofs.Props.C10Gen", "H3Proofs.Props.C13Gen"]
+MODULES = ["H3Proofs.Props.C12", "H3Proofs.Props.C04Gen", "H3Proofs.Props.C05Gen", "H3Proofs.Props.C01", "H3Proofs.Props.C01Lnz", "H3Proofs.Props.C01Rot", "H3Proofs.Props.C10Gen", "H3Proofs.Props.C13Gen", "H3Proofs.Props.C01Api"]
 THEOREMS = "auto"
 ASSUMPTIONS = ["undefined behaviour, stray accesses and uninitialised reads in the C text are invisible to a Lean "
                "model: the model proves the decision logic / guards / bounds of the modelled core; the real code is "
